@@ -1370,6 +1370,83 @@ theorem add_good' {c : Dag} {P : Paths} (g : Good c P) {op : Op} (hop : OpWF op)
   · rw [heq]; simp
 
 
+/-- the wires after `_add`: the new node inserted before `out k` on every wire `k` of the operation -/
+theorem add_struct {c : Dag} {P : Paths} (g : Good c P) {op : Op} (hop : OpWF op) (hlive : ∀ r ∈ opRegs op, c.live r) :
+    Inv (c.add_ op) (splicePaths (.op (c.nodeId + 1)) ((opRegs op).map (lastEdge P)) P) := by
+  let n := NodeId.op (c.nodeId + 1)
+  have hfresh := g.inv.op_fresh
+  have hnP : ∀ k, n ∉ P k := fun k hm => hfresh (g.inv.mem_nodes k _ hm)
+  have h0 : Inv (c.newNode op) P := newNode_inv g.inv hop
+  have hn0 : n ∈ (c.newNode op).nodeIds := by simp [nodeIds, newNode_nodes g.inv op, n]
+  have hlive0 : ∀ k ∈ opRegs op, (c.newNode op).live k := by
+    intro k hk; simpa [live] using hlive k hk
+  have heq : c.add_ op = (c.newNode op).spliceAll n ((opRegs op).map (lastEdge P)) := by
+    rw [add_eq_fold]
+    exact addLoop_eq h0 rfl hn0 (opRegs op) (opRegs_nodup hop) hlive0 (fun k _ => hnP k)
+  have hkeys : ((opRegs op).map (lastEdge P)).map (·.key) = opRegs op := by
+    rw [List.map_map]; simp [lastEdge, Function.comp_def]
+  have hmem : ∀ e ∈ (opRegs op).map (lastEdge P), e ∈ (c.newNode op).edges := by
+    intro e he
+    obtain ⟨k, hk, rfl⟩ := List.mem_map.mp he
+    exact h0.lastEdge_mem (hlive0 k hk)
+  have hknd : (((opRegs op).map (lastEdge P)).map (·.key)).Nodup := by rw [hkeys]; exact opRegs_nodup hop
+  rw [heq]
+  exact (spliceAll_inv h0 (i := c.nodeId + 1) rfl hn0 _ hmem hknd (fun e _ => hnP e.key)).1
+
+/-- **edge effect of `_add`**: the edges into the outputs of the operation's registers are replaced by an edge into the
+    new node and an edge from the new node to the output; all other edges are untouched -/
+theorem add_edges_iff {c : Dag} {P : Paths} (g : Good c P) {op : Op} (hop : OpWF op) (hlive : ∀ r ∈ opRegs op, c.live r)
+    (e : Edge) :
+    e ∈ (c.add_ op).edges ↔ (e ∈ c.edges ∧ ∀ k ∈ opRegs op, e ≠ lastEdge P k) ∨
+      ∃ k ∈ opRegs op, e = ⟨predOut P k, .op (c.nodeId + 1), k⟩ ∨ e = ⟨.op (c.nodeId + 1), .out k, k⟩ := by
+  have hinv := add_struct g hop hlive
+  have hfresh := g.inv.op_fresh
+  have hnP : ∀ k, NodeId.op (c.nodeId + 1) ∉ P k := fun k hm => hfresh (g.inv.mem_nodes k _ hm)
+  have hkeys : ((opRegs op).map (lastEdge P)).map (·.key) = opRegs op := by
+    rw [List.map_map]; simp [lastEdge, Function.comp_def]
+  have hknd : (((opRegs op).map (lastEdge P)).map (·.key)).Nodup := by rw [hkeys]; exact opRegs_nodup hop
+  rw [hinv.edges_iff]
+  by_cases hk : e.key ∈ opRegs op
+  · have hmemE : lastEdge P e.key ∈ (opRegs op).map (lastEdge P) := List.mem_map.mpr ⟨e.key, hk, rfl⟩
+    have := splicePaths_mem (.op (c.nodeId + 1)) _ P hknd (lastEdge P e.key) hmemE
+    simp only [lastEdge] at this
+    rw [this]
+    have hcons : Consec (P e.key) (predOut P e.key) (.out e.key) :=
+      (g.inv.edges_iff (lastEdge P e.key)).mp (g.inv.lastEdge_mem (hlive _ hk))
+    rw [consec_insertAfter (g.inv.nodup _) hcons (hnP _), ← g.inv.edges_iff e]
+    obtain ⟨x, y, k⟩ := e
+    simp only at hk ⊢
+    constructor
+    · rintro (⟨h1, h2⟩ | ⟨h1, h2⟩ | ⟨h1, h2⟩)
+      · left
+        refine ⟨h1, ?_⟩
+        intro k' hk' heq
+        simp only [lastEdge] at heq
+        injection heq with e1 e2 e3
+        subst e3
+        exact h2 ⟨e1, e2⟩
+      · right; exact ⟨k, hk, Or.inl (by rw [h1, h2])⟩
+      · right; exact ⟨k, hk, Or.inr (by rw [h1, h2])⟩
+    · rintro (⟨h1, h2⟩ | ⟨k', hk', h | h⟩)
+      · left
+        refine ⟨h1, ?_⟩
+        rintro ⟨rfl, rfl⟩
+        exact h2 k hk rfl
+      · injection h with e1 e2 e3; subst e3; right; left; exact ⟨e1, e2⟩
+      · injection h with e1 e2 e3; subst e3; right; right; exact ⟨e1, e2⟩
+  · have hk' : e.key ∉ ((opRegs op).map (lastEdge P)).map (·.key) := by rw [hkeys]; exact hk
+    rw [splicePaths_other _ _ P _ hk', ← g.inv.edges_iff e]
+    constructor
+    · intro h1
+      left
+      refine ⟨h1, ?_⟩
+      intro k hk2 heq
+      apply hk; rw [heq]; exact hk2
+    · rintro (⟨h1, _⟩ | ⟨k, hk2, h | h⟩)
+      · exact h1
+      · exfalso; apply hk; rw [h]; exact hk2
+      · exfalso; apply hk; rw [h]; exact hk2
+
 /-- **`add` keeps DagInv** — also when it raises (`ValueError` of the register prologue: only registers were added) -/
 theorem add_good {c : Dag} {P : Paths} (g : Good c P) {op : Op} (hop : OpWF op) : ∃ P', Good (c.add op).1 P' := by
   obtain ⟨P1, g1, hl1, _, _⟩ := ensureRegs_good g op
